@@ -66,6 +66,9 @@ def gen(seed: int, tier: str) -> dict[str, Any]:
                                       "ind_bad_cemi", "empty"])
         if k in ("wrapped", "wrapped_forged", "wrapped_wrong_key", "notify", "notify_forged"):
             op["off"] = rng.choice(OFFS) if k != "notify_forged" else rng.choice([10 ** 6, 10 ** 9, 5000])
+        if k in ("wrapped", "notify") and rng.random() < 0.15:
+            # an authentic frame from long ago (a recording replayed): half the counter range or more behind
+            op["off"] = -rng.choice([2 ** 46, 2 ** 47 - 5, 2 ** 47 + 5, 2 ** 47 + 10 ** 6, 0xD000_0000_0000])
         if k == "wrapped_short_forged":
             # made without the key: timer value far ahead, 0-9 octets where the encrypted frame belongs, random MAC
             op["off"] = rng.choice([10 ** 6, 10 ** 9, 2 ** 40, 5000])
@@ -104,7 +107,9 @@ def gen(seed: int, tier: str) -> dict[str, Any]:
     return {"seed": seed, "tier": "S" if sync not in ("dup", "one+stale") else "P",
             "config": {"sync": sync, "latency_ms": rng.choice([1000, 1000, 2000, 500]),
                        "batch": 1 if sync not in ("dup", "one+stale") else rng.choice([1, 3, 3]),
-                       "peer_base": rng.choice([5_000, 1_000_000, 2_000_000, 10 ** 9]) if sync != "one+stale" else 10 ** 9,
+                       # (also groups whose timer has run into the upper half of its 48-bit range)
+                       "peer_base": rng.choice([5_000, 1_000_000, 2_000_000, 10 ** 9, 2 ** 47 - 10 ** 6, 2 ** 47 + 10 ** 6,
+                                                0xE000_0000_0000, 2 ** 48 - 10 ** 10]) if sync != "one+stale" else 10 ** 9,
                        "stale_ahead": rng.choice([1, 5_000, 3_600_000])},
             "ops": ops}
 
@@ -226,7 +231,7 @@ def run(plan: dict[str, Any]) -> dict[str, Any]:
             # unauthentic frames while the synchronisation is pending
             ind_ = W.routing_indication(W.cemi_ldata(W.L_DATA_IND, 0x1107, W.ga(1, 1, 2),
                                                      tpci_apci=W.gv_write(op["id"].to_bytes(2, "big"))))
-            value = max(1, timer.current_timer_value() + op["off"])
+            value = min(2 ** 48 - 1, max(1, timer.current_timer_value() + op["off"]))
             values[op["id"]] = value
             if op["op"] == "notify_forged":
                 fr = C.timer_notify(key, value, b"\x00\xfa\x12\x34\x56\x78", b"\x00\x07")
@@ -295,7 +300,7 @@ def run(plan: dict[str, Any]) -> dict[str, Any]:
             ind = W.routing_indication(W.cemi_ldata(W.L_DATA_IND, 0x1107, W.ga(1, 1, 2), tpci_apci=W.gv_write(pid.to_bytes(2, "big"))))
             local_guess = timer.current_timer_value()
             if k == "wrapped_bad_inner":
-                value = max(1, local_guess + op["off"])
+                value = min(2 ** 48 - 1, max(1, local_guess + op["off"]))
                 inner = {"busy_empty": W.frame(W.ROUTING_BUSY, b""), "ind_short": W.frame(W.ROUTING_IND, b"\x29"),
                          "lost_empty": W.frame(W.ROUTING_LOST, b""), "unknown_svc": W.frame(0x0FFF, b"\x01\x02"),
                          "bad_header": bytes((6, 0x20, 0x05, 0x30, 0x00, 0x08, 1, 2)),
@@ -306,7 +311,7 @@ def run(plan: dict[str, Any]) -> dict[str, Any]:
                 R.extra_faults["authentic_wrapper_with_malformed_inner_frame"] += 1
                 peers[0].sendto(fr, MCAST, lat=lat, nofault=True)
             elif k in ("wrapped", "wrapped_forged", "wrapped_wrong_key"):
-                value = max(1, local_guess + op["off"])
+                value = min(2 ** 48 - 1, max(1, local_guess + op["off"]))
                 values[pid] = value
                 fr = C.wrap(key if k != "wrapped_wrong_key" else bytes(16), 0, value.to_bytes(6, "big"), b"\x00\xfa\x12\x34\x56\x78",
                             rng.randbytes(2), ind)
@@ -323,14 +328,14 @@ def run(plan: dict[str, Any]) -> dict[str, Any]:
                     R.extra_faults[k] += 1
                 peers[0].sendto(fr, MCAST, lat=lat, nofault=True)
             elif k == "wrapped_short_forged":
-                value = max(1, local_guess + op["off"])
+                value = min(2 ** 48 - 1, max(1, local_guess + op["off"]))
                 values[pid] = value
                 fr = W.frame(W.SECURE_WRAPPER, b"\x00\x00" + value.to_bytes(6, "big") + b"\x00\xfa\x12\x34\x56\x78"
                              + rng.randbytes(2) + rng.randbytes(op["n"]) + rng.randbytes(16))
                 R.extra_faults[k] += 1
                 peers[0].sendto(fr, MCAST, lat=lat, nofault=True)
             elif k in ("notify", "notify_forged"):
-                value = max(1, local_guess + op["off"])
+                value = min(2 ** 48 - 1, max(1, local_guess + op["off"]))
                 fr = C.timer_notify(key, value, b"\x00\xfa\x12\x34\x56\x78", rng.randbytes(2))
                 if k == "notify_forged":
                     fr = fr[:-3] + bytes((fr[-3] ^ 0x10,)) + fr[-2:]
